@@ -156,8 +156,8 @@ m('c15-not-not', 'C15', C, "        return 'not %s' % self.rule", "        retur
 # ---- C16 ------------------------------------------------------------------
 m('c16-in', 'C16', E, "                return r.text.lstrip('\"').rstrip('\"') == 'True'\n        except Timeout:\n            raise RuntimeError(\"Timeout in REST API call\")\n\n    @staticmethod",
   "                return r.text.lstrip('\"').rstrip('\"').strip() == 'True'\n        except Timeout:\n            raise RuntimeError(\"Timeout in REST API call\")\n\n    @staticmethod", 'http: whitespace around True accepted')
-m('c16-status', 'C16', E, "                return r.text.lstrip('\"').rstrip('\"') == 'True'\n        except Timeout:\n            raise RuntimeError(\"Timeout in REST API call\")\n",
-  "                return r.text.lstrip('\"').rstrip('\"') == 'True' or r.status_code == 204\n        except Timeout:\n            raise RuntimeError(\"Timeout in REST API call\")\n", 'HTTP 204 allows')
+m('c16-status', 'C16', E, "                                  timeout=timeout)\n            ) as r:\n                return r.text.lstrip('\"').rstrip('\"') == 'True'",
+  "                                  timeout=timeout)\n            ) as r:\n                return r.text.lstrip('\"').rstrip('\"') == 'True' or r.status_code == 204", 'https: HTTP 204 allows')
 m('c16-blank-caller', 'C16', E, "        temp_target = copy.deepcopy(target)\n        for key in target.keys():\n            element = target.get(key)\n            if type(element) is object:\n                temp_target[key] = {}",
   "        temp_target = target\n        for key in target.keys():\n            element = target.get(key)\n            if type(element) is object:\n                temp_target[key] = {}", "opaque values blanked in the caller's own target")
 m('c16-https-timeout-false', 'C16', E, "                                  timeout=timeout)\n            ) as r:\n                return r.text.lstrip('\"').rstrip('\"') == 'True'\n        except Timeout:\n            raise RuntimeError(\"Timeout in REST API call\")",
@@ -190,3 +190,19 @@ m('c20-clear-in-place', 'C20', Y, "        if overwrite:\n            self.rules
   "        if overwrite:\n            self.rules.clear()\n            self.rules.update(rules)\n            self.rules.default_rule = self.default_rule\n        else:\n            self.rules.update(rules)", 'published store cleared in place before the reload')
 m('c20-shared-check-mutated', 'C20', Y, "                self.rules[default.name] = check\n", "                self.rules[default.name] = check\n                if isinstance(check, _checks.RoleCheck) and check.match == 'z':\n                    check.match = 'zz'\n                    check.match = 'z'\n",
   'a check object shared by old and new stores is transiently mutated')
+
+
+# Mutants that turned out to be semantically equivalent (the property still holds on them): a check that flagged one of
+# these would be raising a false alarm, so "not flagged" is the correct outcome.
+EQUIVALENT = {
+    'c01-mix-nested': 'operand order inside an n-ary AND does not change a decision',
+    'c01-not-binds-loose': "the extra reducer can never fire: 'not check' is reduced greedily before an 'and' arrives",
+    'c03-default-not-in-self': 'the recursive lookup raises KeyError one level down; the decision is still deny',
+    'c08-true-on-mismatch': 'a scope mismatch is impossible when all three scope types are declared',
+    'c11-old-over-new': 'the dropped test is unreachable: load_rules never merges a name that is already in the rule store',
+    'c18-revert-d8': 'without the conversion the list is written as a JSON/YAML list, which loads back as the same rule',
+    'c12-register-no-copy': 'registering without a copy is invisible unless something mutates the object',
+}
+for _m in M:
+    if _m['id'] in EQUIVALENT:
+        _m['equivalent'] = EQUIVALENT[_m['id']]
